@@ -1,11 +1,13 @@
 #!/bin/sh
-# tools/keep_mut.sh Cxx <seed-name> : confirm in the scratch worktree, copy into seeded/<seed-name>/
+# tools/keep_mut.sh Cxx <seed-name> [--full] : confirm in the scratch worktree, copy into seeded/<seed-name>/
+# (MUT_ROOT / MUTWORK_ROOT select the round: default /tmp/mut, /tmp/mutwork)
 pid=$1; name=$2
-/verif/tools/confirm_mut.py $pid ${3:-} > /tmp/mutwork/$pid/confirm.out 2>&1
-if grep -q '"confirmed": true' /tmp/mutwork/$pid/confirm.json; then
+W=${MUTWORK_ROOT:-/tmp/mutwork}
+/verif/tools/confirm_mut.py $pid ${3:-} > $W/$pid/confirm.out 2>&1
+if grep -q '"confirmed": true' $W/$pid/confirm.json; then
   mkdir -p /verif/seeded/$name
-  cp /tmp/mutwork/$pid/patch.diff /tmp/mutwork/$pid/demo.py /tmp/mutwork/$pid/meta.json /tmp/mutwork/$pid/confirm.json /verif/seeded/$name/
+  cp $W/$pid/patch.diff $W/$pid/demo.py $W/$pid/meta.json $W/$pid/confirm.json /verif/seeded/$name/
   echo "kept $name"
 else
-  echo "NOT confirmed: $pid"; cat /tmp/mutwork/$pid/confirm.json
+  echo "NOT confirmed: $pid"; cat $W/$pid/confirm.json
 fi
